@@ -1,0 +1,41 @@
+//go:build verif
+
+package serviceblock
+
+// Contracts for govc (see /verif/DESIGN.md).  Comment-only file.
+//
+// C13 for the blocked-service lists: a refresh whose download, decoding or
+// conversion fails leaves the installed services exactly as they were; a
+// successful one installs the converted index.  (The download itself is
+// refreshable.Refreshable.Refresh, under contract in its own package; the
+// conversion of the index entries is not under contract.)
+
+//@ import internal github.com/AdguardTeam/AdGuardDNS/internal/filter/internal
+//@ import rulelist github.com/AdguardTeam/AdGuardDNS/internal/filter/internal/rulelist
+
+//@ immutable Filter.mu, Filter.metrics, Filter.logger, Filter.refr, Filter.errColl
+
+// lastConverted: what the last conversion of a downloaded index returned.
+//@ ghost lastConverted serviceRuleLists
+
+//@ func (*Filter).loadIndex
+//@   modifies heap
+//@   preserves Filter.*
+//@   ensures err == nil ==> resp != nil
+//@ func (*indexResp).toInternal
+//@   modifies heap, lastConverted
+//@   preserves Filter.*
+//@   ensures err == nil ==> services == lastConverted && (forall id internal.BlockedServiceID :: has(services, id) ==> services[id] != nil)
+//@ func (*rulelist.Immutable).RulesCount
+//@   modifies nothing
+
+// (f.mu serialises installation with readers; the statement below is about
+// what this call writes, so the mutex needs no invariant here.)
+
+//@ func (*Filter).Refresh
+//@   property C13
+//@   requires f != nil && f.mu != nil && ref(f.metrics) != 0
+//@   modifies heap, lastConverted
+//@   ensures a-failed-refresh-keeps-the-installed-services: err != nil ==> f.services == old(f.services)
+//@   ensures a-successful-refresh-installs-the-converted-index: err == nil ==> f.services == lastConverted
+//@   loop 1 invariant true
